@@ -380,7 +380,7 @@ Proof.
   destruct (context_fields _ _ _ E') as [K' [S' [M' [P' T']]]].
   rewrite context_tokens_nb in T, T'. split.
   - intros <-. unfold same_report. repeat split; congruence.
-  - intros [[Hk [Hs [Hm Hp]]] Ht]. destruct c, c'. cbn [c_kind c_sugg c_msg c_prio c_toks] in *.
+  - intros [[Hk [Hs [Hm Hp]]] Ht]. destruct c, c'. cbn in K, S, M, P, T, K', S', M', P', T'.
     rewrite T, T' in Ht. inversion Ht. congruence.
 Qed.
 
